@@ -21,14 +21,16 @@ CHECKS = {
         text="For each stream (1-3 messages, both roles, on/off PDU boundaries, long-form lengths) every chunk s[k:j] for all k<=j, in "
         "three container flavours (bytes, reused bytearray, memoryview), is delivered to a copy of column k's real session; each edge must "
         "reproduce column j's cumulative messages and its state (structurally equal, or - if the representation differs - indistinguishable in visible attributes, pending output and "
-        "on a fixed set of continuations of the stream). With structurally equal states this covers all 2^(n-1) partitions by induction.",
+        "on a fixed set of continuations of the stream). With structurally equal states this covers all 2^(n-1) partitions by induction. Also: every <=3-chunk partition with a second live "
+        "session receiving in between; streams ending in a terminator (unbind / notice); values of 300 KB, 1.2 MB (17 MB thorough).",
         note="Streams are a finite catalogue drawn from U (44 quick / ~300 thorough); well-formed streams only (terminators are C05/C08).",
     ),
     "C03": dict(
         technique="bounded-exhaustive enumeration of U, library encoder vs an independent strict RFC 4511 decoder (reference model)",
         text="Every message of U is packed by the library and decoded by vf/ref/ldap.py, a schema-directed strict decoder written "
         "from RFC 4511 Appendix B that shares no code with sansldap; the abstract values must be equal. The reference is itself "
-        "checked to be its own inverse over U's dev(1) slice on every run.",
+        "checked to be its own inverse over U's dev(1) slice on every run. Also: the RFC's named numbers; messages obtained from the decoder (known controls exposing received octets); "
+        "pack / change a list inside the message / pack again for every list of every base message.",
         note="Trusts the reference's transcription of the RFC 4511 ASN.1 module (type tables in vf/ref/ldap.py).",
     ),
     "C04": dict(
